@@ -261,6 +261,8 @@ def check_C20(run):
     fams = [("interval", dict(over=dict(MaxT=5 if q else 6, MaxKids=4, MaxRecs=2, MaxRevokes=0 if q else 1, EmitEvery=12 if q else 50),
                               ik=("session", "shared", "none"), sk=(True, False) )),
             ("two-parts", dict(over=dict(MaxT=4, MaxKids=4 if q else 5, MaxRecs=2, MaxRevokes=0, EmitEvery=15 if q else 60), parts=("a", "b"), ik=("shared", "session"), sk=(True,)))]
+    import eng_conc
+    eng_conc.stale_sk_part(run)      # concurrent sessions on a stale system key: one KMS unwrap (RefMonitor.tla)
     return generic(run, fams)
 
 
